@@ -491,43 +491,94 @@ def r6(mods):
 
 
 # ---- R7 decision tables: the small verdict functions return/do exactly the reviewed things
-# under exactly the reviewed conditions (conditions and expressions are compared as
-# normalised source text of the ast, statements that only log are ignored) ----
+# under exactly the reviewed conditions.  Both the reviewed table and the current function are
+# read as "outcome <= conjunction of conditions" rows and compared, outcome by outcome, as
+# boolean functions over the conditions (truth table): rewriting an if-ladder as one boolean
+# expression, nesting or merging tests, De Morgan, `a != b` for `not a == b`, operand order and
+# `return cond` for `if cond: return True ... return False` all leave the table unchanged;
+# statements that only log are ignored ----
+def _atom(test, pol):
+    """one comparison/test as (atom text, polarity) in the ==, <, is, in forms"""
+    if isinstance(test, ast.Compare) and len(test.ops) == 1:
+        op, l, r = test.ops[0], src(test.left), src(test.comparators[0])
+        if isinstance(op, (ast.Eq, ast.NotEq)):
+            l, r = sorted((l, r))
+            return f"{l} == {r}", pol == isinstance(op, ast.Eq)
+        if isinstance(op, (ast.Is, ast.IsNot)):
+            l, r = sorted((l, r))
+            return f"{l} is {r}", pol == isinstance(op, ast.Is)
+        if isinstance(op, (ast.In, ast.NotIn)):
+            return f"{l} in {r}", pol == isinstance(op, ast.In)
+        if isinstance(op, ast.Lt):
+            return f"{l} < {r}", pol
+        if isinstance(op, ast.Gt):
+            return f"{r} < {l}", pol
+        if isinstance(op, ast.LtE):
+            return f"{r} < {l}", not pol
+        if isinstance(op, ast.GtE):
+            return f"{l} < {r}", not pol
+    return src(test), pol
+
+
+def _product(xs, ys):
+    out = []
+    for x in xs:
+        for y in ys:
+            d = dict(x)
+            ok = True
+            for a, p in y:
+                if d.get(a, p) != p:
+                    ok = False
+                    break
+                d[a] = p
+            if ok:
+                out.append(frozenset(d.items()))
+    return out
+
+
+def cond_dnf(test, pol=True):
+    """disjunctive normal form of a branch condition: list of frozenset((atom, polarity))"""
+    if isinstance(test, ast.UnaryOp) and isinstance(test.op, ast.Not):
+        return cond_dnf(test.operand, not pol)
+    if isinstance(test, ast.Constant) and isinstance(test.value, bool):
+        return [frozenset()] if test.value == pol else []
+    if isinstance(test, ast.BoolOp):
+        conj = isinstance(test.op, ast.And) == pol
+        parts = [cond_dnf(v, pol) for v in test.values]
+        if conj:
+            out = [frozenset()]
+            for p_ in parts:
+                out = _product(out, p_)
+            return out
+        return [c for p_ in parts for c in p_]
+    a, p_ = _atom(test, pol)
+    return [frozenset([(a, p_)])]
+
+
+def _is_boolean_expr(e):
+    return isinstance(e, (ast.Compare, ast.BoolOp)) or (isinstance(e, ast.UnaryOp) and isinstance(e.op, ast.Not)) or (isinstance(e, ast.Constant) and isinstance(e.value, bool))
+
+
 def decision_table(fn):
-    rows = []
+    rows = []  # (outcome, frozenset of literals)
 
     def is_log(st):
         t = src(st)
         return "_logger." in t or t.startswith("logger.") or t.startswith("logging.") or (isinstance(st, ast.Expr) and isinstance(st.value, ast.Constant))
 
-    def cond(test, pol):
-        """canonical text of a branch condition: negations folded, comparison operands ordered,
-        conjuncts/disjuncts sorted"""
-        if isinstance(test, ast.UnaryOp) and isinstance(test.op, ast.Not):
-            return cond(test.operand, not pol)
-        if isinstance(test, ast.BoolOp):
-            conj = (isinstance(test.op, ast.And) and pol) or (isinstance(test.op, ast.Or) and not pol)
-            parts = sorted(cond(v, pol) for v in test.values)
-            return ("AND(" if conj else "OR(") + " , ".join(parts) + ")"
-        if isinstance(test, ast.Compare) and len(test.ops) == 1 and type(test.ops[0]) in OPS:
-            op = OPS[type(test.ops[0])]
-            l, r = src(test.left), src(test.comparators[0])
-            if not pol:
-                op = NEG[op]
-            if op in FLIP and r < l:
-                l, r, op = r, l, FLIP[op]
-            return f"{l} {op} {r}"
-        if isinstance(test, ast.Compare) and len(test.ops) == 1 and isinstance(test.ops[0], (ast.In, ast.NotIn)):
-            neg = isinstance(test.ops[0], ast.NotIn) != (not pol)
-            return f"{src(test.left)} {'not in' if neg else 'in'} {src(test.comparators[0])}"
-        t = src(test)
-        return t if pol else f"!({t})"
+    def emit(out, conds):
+        for c in conds:
+            rows.append((out, c))
+
+    def mark(conds, text):
+        return _product(conds, [frozenset([(text, True)])])
 
     def walk(stmts, conds):
         for st in stmts:
             if isinstance(st, ast.If):
-                a = walk(st.body, conds + [cond(st.test, True)])
-                b = walk(st.orelse, conds + [cond(st.test, False)]) if st.orelse else conds + [cond(st.test, False)]
+                a = walk(st.body, _product(conds, cond_dnf(st.test, True)))
+                neg = _product(conds, cond_dnf(st.test, False))
+                b = walk(st.orelse, neg) if st.orelse else neg
                 if a is None and b is None:
                     return None
                 if a is None:
@@ -537,32 +588,62 @@ def decision_table(fn):
                 continue
             if isinstance(st, (ast.For, ast.While)):
                 hdr = f"for {src(st.target)} in {src(st.iter)}" if isinstance(st, ast.For) else f"while {src(st.test)}"
-                walk(st.body, conds + [hdr])
+                walk(st.body, mark(conds, hdr))
                 continue
             if isinstance(st, ast.Try):
-                walk(st.body, conds + ["try"])
+                walk(st.body, mark(conds, "try"))
                 for h in st.handlers:
-                    walk(h.body, conds + [f"except {src(h.type) if h.type else ''}"])
-                walk(st.finalbody, conds + ["finally"])
+                    walk(h.body, mark(conds, f"except {src(h.type) if h.type else ''}"))
+                walk(st.finalbody, mark(conds, "finally"))
                 continue
             if isinstance(st, ast.With):
-                walk(st.body, conds + [f"with {', '.join(src(i.context_expr) for i in st.items)}"])
+                walk(st.body, mark(conds, f"with {', '.join(src(i.context_expr) for i in st.items)}"))
                 continue
             if isinstance(st, ast.Return):
-                rows.append(f"RET {src(st.value) if st.value else 'None'} <= {' ; '.join(conds)}")
+                if st.value is not None and _is_boolean_expr(st.value):
+                    emit("RET True", _product(conds, cond_dnf(st.value, True)))
+                    emit("RET False", _product(conds, cond_dnf(st.value, False)))
+                else:
+                    emit(f"RET {src(st.value) if st.value else 'None'}", conds)
                 return None
             if isinstance(st, ast.Raise):
-                rows.append(f"RAISE {src(st.exc) if st.exc else ''} <= {' ; '.join(conds)}")
+                emit(f"RAISE {src(st.exc) if st.exc else ''}", conds)
                 return None
             if is_log(st) or isinstance(st, ast.Pass):
                 continue
-            rows.append(f"DO {src(st)} <= {' ; '.join(conds)}")
+            emit(f"DO {src(st)}", conds)
         return conds
 
-    end = walk(fn.body, [])
+    end = walk(fn.body, [frozenset()])
     if end is not None:
-        rows.append(f"RET None <= {' ; '.join(end)}")
-    return sorted(rows)
+        emit("RET None", end)
+    out = []
+    for o, c in rows:
+        out.append({"out": o, "when": sorted(a if p_ else "!" + a for a, p_ in c)})
+    return sorted(out, key=lambda r_: (r_["out"], r_["when"]))
+
+
+def table_diff(got, want):
+    """None when both tables decide the same; otherwise a sentence naming an outcome and an
+    assignment of the conditions under which only one of them yields it"""
+    def lits(row):
+        return [(w[1:], False) if w.startswith("!") else (w, True) for w in row["when"]]
+    atoms = sorted({a for t in (got, want) for r_ in t for a, _ in lits(r_)})
+    outs = sorted({r_["out"] for t in (got, want) for r_ in t})
+    if len(atoms) > 14:
+        g = sorted((r_["out"], tuple(r_["when"])) for r_ in got)
+        w = sorted((r_["out"], tuple(r_["when"])) for r_ in want)
+        return None if g == w else f"{len(atoms)} conditions (compared as text): rows differ"
+    def holds(t, out, asg):
+        return any(r_["out"] == out and all(asg[a] == p_ for a, p_ in lits(r_)) for r_ in t)
+    for out in outs:
+        for m in range(1 << len(atoms)):
+            asg = {a: bool(m >> i & 1) for i, a in enumerate(atoms)}
+            hg, hw = holds(got, out, asg), holds(want, out, asg)
+            if hg != hw:
+                where = " ; ".join(a if asg[a] else "!" + a for a in atoms)
+                return f"{'now' if hg else 'no longer'} `{out}` under [{where}]"
+    return None
 
 
 TABLES = json.load(open(os.path.join(os.path.dirname(os.path.abspath(__file__)), "c19_tables.json")))
@@ -585,10 +666,9 @@ def r7(mods):
             if want is None:
                 undec("R7", f"table/{k}", loc(path, fn), "no reviewed table for this function")
                 continue
-            extra = [g for g in got if g not in want]
-            missing = [w for w in want if w not in got]
-            check(not extra and not missing, "R7", f"table/{k}", loc(path, fn),
-                  f"{len(got)} (result/effect <= conditions) rows equal the reviewed table" + ("" if not extra and not missing else f"; not in the table: {extra[:3]}; missing: {missing[:3]}"))
+            d = table_diff(got, want)
+            check(d is None, "R7", f"table/{k}", loc(path, fn),
+                  f"results and effects happen under exactly the reviewed conditions ({len(want)} reviewed rows, compared as boolean functions of the conditions)" + ("" if d is None else f"; {d}"))
 
 
 TABLE_FUNCS = [
